@@ -22,6 +22,7 @@ import (
 
 	"github.com/gin-gonic/gin"
 	"github.com/google/uuid"
+	"github.com/pion/rtp"
 
 	"github.com/bluenviron/mediamtx/internal/auth"
 	"github.com/bluenviron/mediamtx/internal/conf"
@@ -34,6 +35,7 @@ import (
 	"github.com/bluenviron/mediamtx/internal/protocols/moq/controlmessage"
 	"github.com/bluenviron/mediamtx/internal/protocols/moq/subgroup"
 	"github.com/bluenviron/mediamtx/internal/protocols/moq/varint"
+	pwebrtc "github.com/bluenviron/mediamtx/internal/protocols/webrtc"
 	"github.com/bluenviron/mediamtx/internal/servers/hls"
 	"github.com/bluenviron/mediamtx/internal/servers/moq"
 	"github.com/bluenviron/mediamtx/internal/servers/rtmp"
@@ -373,6 +375,95 @@ func c35nameErr(err error) string {
 	return "bad other"
 }
 
+func c35ids(ids []uint8) string {
+	if len(ids) == 0 {
+		return "_"
+	}
+	p := make([]string, len(ids))
+	for i, v := range ids {
+		p[i] = strconv.Itoa(int(v))
+	}
+	return strings.Join(p, ",")
+}
+
+// pion/rtp as oracle: parse, extension flag / profile / ids, GetExtension(id) != nil (id 0 = TWCC not negotiated)
+func c35rtpOracles(id uint8, raw []byte) string {
+	ok, ext, prof, ids, nonNil, _, _, _ := pwebrtc.VerifC35StripTWCC(0, raw)
+	if !ok {
+		return "0 0 0 _ 0"
+	}
+	if id != 0 {
+		nonNil = false
+		pkt := &rtp.Packet{}
+		if pkt.Unmarshal(raw) == nil {
+			nonNil = pkt.GetExtension(id) != nil
+		}
+	}
+	return fmt.Sprintf("1 %s %d %s %s", c35b01(ext), prof, c35ids(ids), c35b01(nonNil))
+}
+
+// RTP packets as a hostile publisher may send them: extension block absent / only TWCC / others without
+// TWCC / both, one-byte and two-byte profiles, unknown profiles, malformed lengths, CSRC counts, padding.
+func c35rtpPacket(r *verifutil.Rand, twcc uint8) []byte {
+	pkt := &rtp.Packet{Header: rtp.Header{
+		Version: 2, PayloadType: uint8(96 + r.Intn(4)), SequenceNumber: uint16(r.Intn(65536)),
+		Timestamp: uint32(r.U64()), SSRC: uint32(r.U64()), Marker: r.Bool(),
+	}, Payload: r.Bytes(r.Intn(12))}
+	for n := r.Intn(4); n > 0; n-- {
+		pkt.CSRC = append(pkt.CSRC, uint32(r.U64()))
+	}
+	twoByte := r.Intn(3) == 0
+	if r.Intn(5) != 0 {
+		pkt.Extension = true
+		pkt.ExtensionProfile = 0xBEDE
+		if twoByte {
+			pkt.ExtensionProfile = 0x1000
+		}
+		var ids []uint8
+		switch r.Intn(5) {
+		case 0: // only TWCC
+			ids = []uint8{twcc}
+		case 1: // others, no TWCC (sdes:mid, rid, abs-send-time …)
+			ids = []uint8{1 + uint8(r.Intn(14))}
+			if r.Bool() {
+				ids = append(ids, 1+uint8(r.Intn(14)))
+			}
+		case 2: // both
+			ids = []uint8{1 + uint8(r.Intn(14)), twcc}
+		case 3: // TWCC twice
+			ids = []uint8{twcc, twcc}
+		}
+		for _, id := range ids {
+			if id == 0 || id > 14 {
+				continue
+			}
+			n := 1 + r.Intn(4)
+			if twoByte && r.Intn(4) == 0 {
+				n = 0
+			}
+			pkt.SetExtension(id, r.Bytes(n)) //nolint:errcheck
+		}
+	}
+	raw, err := pkt.Marshal()
+	if err != nil || len(raw) == 0 {
+		raw = r.Bytes(12 + r.Intn(20))
+	}
+	switch r.Intn(8) {
+	case 0: // flip bits in the first 20 bytes (version, X, CC, extension length …)
+		raw[r.Intn(min(len(raw), 20))] ^= byte(1 << uint(r.Intn(8)))
+	case 1: // truncate
+		raw = raw[:r.Intn(len(raw)+1)]
+	case 2: // padding bit with a hostile pad count
+		raw[0] |= 0x20
+		raw = append(raw, byte(r.Intn(256)))
+	case 3: // unknown extension profile
+		if pkt.Extension && len(raw) > 12+4*len(pkt.CSRC)+1 {
+			raw[12+4*len(pkt.CSRC)] = byte(r.Intn(256))
+		}
+	}
+	return raw
+}
+
 // ---------- real HTTP front ends on loopback listeners ----------
 
 type c35auth struct{ allow bool }
@@ -500,6 +591,19 @@ func verifC35Exec(op string) string {
 	case "reset":
 		moq.VerifC35Close()
 		return "ok"
+	case "twcc": // twcc <twcc ext id> <raw RTP> <oracles: parsed ext profile ids nonNil>
+		id := uint8(verifutil.Atoi(f[1]))
+		raw := verifutil.UnHex(f[2])
+		// the oracle columns are recomputed on a copy first (so that a panic in the real function is
+		// not mistaken for a stale oracle)
+		if c35rtpOracles(id, raw) != strings.Join(f[3:8], " ") {
+			return "bad-oracle"
+		}
+		ok, _, _, _, _, ext2, prof2, ids2 := pwebrtc.VerifC35StripTWCC(id, raw)
+		if !ok {
+			return "bad"
+		}
+		return fmt.Sprintf("ok %s %d %s", c35b01(ext2), prof2, c35ids(ids2))
 	case "http":
 		return c35http(f[1], verifutil.UnHex(f[2]))
 	case "dump": // dump <declared length> <body: hex | z<len>>
@@ -833,7 +937,14 @@ func c35dur(r *verifutil.Rand) string {
 }
 
 func c35extra(r *verifutil.Rand) string {
-	switch r.Intn(8) {
+	switch r.Intn(10) {
+	case 8, 9:
+		twcc := uint8(1 + r.Intn(14))
+		raw := c35rtpPacket(r, twcc)
+		if r.Intn(6) == 0 {
+			twcc = 0 // transport-wide CC not negotiated
+		}
+		return fmt.Sprintf("twcc %d %s %s", twcc, verifutil.Hex(raw), c35rtpOracles(twcc, raw))
 	case 7:
 		p := c35path(r)
 		if r.Intn(4) == 0 {
